@@ -207,30 +207,43 @@ func (ck *Check) sliceSite(ctx *Ctx, x *ssa.Slice, mkKey func(string) string, co
 	counts["slice"]++
 	key := mkKey("slice")
 	xt := ctx.Term(x.X)
-	var facts []LinFact
-	zero := zeroTerm(types.Typ[types.Int])
-	// bound: cap for slices; len is a sound under-approximation of cap
-	bound := lenOf("len", xt)
-	if x.Low != nil {
-		lo := ctx.Term(x.Low)
-		facts = append(facts, LinFact{A: zero, B: lo, K: 0, Text: "0 ≤ low"})
-		if x.High == nil {
-			facts = append(facts, LinFact{A: lo, B: bound, K: 0, Text: "low ≤ len"})
-		}
-	}
-	if x.High != nil {
-		hi := ctx.Term(x.High)
-		facts = append(facts, LinFact{A: hi, B: bound, K: 0, Text: "high ≤ len"})
+	mk := func(ctx *Ctx) []LinFact {
+		xt := ctx.Term(x.X)
+		var facts []LinFact
+		zero := zeroTerm(types.Typ[types.Int])
+		// bound: cap for slices; len is a sound under-approximation of cap
+		bound := lenOf("len", xt)
 		if x.Low != nil {
-			facts = append(facts, LinFact{A: ctx.Term(x.Low), B: hi, K: 0, Text: "low ≤ high"})
-		} else {
-			facts = append(facts, LinFact{A: zero, B: hi, K: 0, Text: "0 ≤ high"})
+			lo := ctx.Term(x.Low)
+			facts = append(facts, LinFact{A: zero, B: lo, K: 0, Text: "0 ≤ low"})
+			if x.High == nil {
+				facts = append(facts, LinFact{A: lo, B: bound, K: 0, Text: "low ≤ len"})
+			}
 		}
+		if x.High != nil {
+			hi := ctx.Term(x.High)
+			facts = append(facts, LinFact{A: hi, B: bound, K: 0, Text: "high ≤ len"})
+			if x.Low != nil {
+				facts = append(facts, LinFact{A: ctx.Term(x.Low), B: hi, K: 0, Text: "low ≤ high"})
+			} else {
+				facts = append(facts, LinFact{A: zero, B: hi, K: 0, Text: "0 ≤ high"})
+			}
+		}
+		return facts
 	}
-	okv, why, err := ctx.EntailsLinear(ctx.PC(x), facts)
+	okv, why, err := ctx.EntailsLinear(ctx.PC(x), mk(ctx))
 	if err != nil {
 		ck.undecided("C20.R1", key, ck.P.instrPos(x), funcID(fn), "slice bounds in range on every path", err.Error())
 		return
+	}
+	if !okv {
+		// a bound that is a parameter (a generic split / window helper): decided with the arguments
+		// of every static caller bound
+		if lok, lwhy, _ := ck.liftedEntails(fn, x, mk); lok {
+			okv = true
+		} else if lwhy != "" {
+			why = lwhy
+		}
 	}
 	ck.cond(okv, "C20.R1", key, ck.P.instrPos(x), funcID(fn), "PC ⇒ 0 ≤ low ≤ high ≤ len("+xt.String()+")", ctx.Term(x).String(), "slice bounds out of range panic the scan: "+why)
 }
@@ -826,6 +839,24 @@ func (ck *Check) nonNilWhenOK(f *ssa.Function, idx int) bool {
 		vt := ctx.Term(v)
 		if imp, _, _ := Entails(pc, Not(cmpFormula(token.EQL, vt, nilT))); imp {
 			continue
+		}
+		// both results handed on from one fallible call: (x, err) := g(); return x, err
+		if ex, ok := v.(*ssa.Extract); ok {
+			if eex, ok := errV.(*ssa.Extract); ok && eex.Tuple == ex.Tuple {
+				if c, ok := ex.Tuple.(*ssa.Call); ok {
+					if tup, ok := c.Type().(*types.Tuple); ok && eex.Index == tup.Len()-1 {
+						inner := len(ck.P.calleesOf(c)) > 0
+						for _, g := range ck.P.calleesOf(c) {
+							if !ck.nonNilWhenOK(g, ex.Index) {
+								inner = false
+							}
+						}
+						if inner {
+							continue
+						}
+					}
+				}
+			}
 		}
 		// result of another fallible call whose error was checked
 		if ex, ok := v.(*ssa.Extract); ok {
